@@ -19,7 +19,7 @@ Fixpoint prun (bm : bool) (round : string) (e : option pentry) (calls : list ty)
   match calls, exp with
   | [], [] => true
   | a :: cs, (ok, ee) :: es =>
-      let '(acc, e') := propagate bm round e a in
+      let '(acc, e') := propagate fixed_prop bm round e a in
       Bool.eqb (ekind_of acc e a) ok &&
       match e', ee with
       | Some (t1, r1), Some (t2, r2) => ty_eqb t1 t2 && String.eqb r1 r2
